@@ -10,7 +10,7 @@ produced by the injectors (which the theorem shows untypable) must be rejected w
 * expressions: typed literals, variables (index into the environment), binary operators `+ - * < and`, `if(c, do a, do b)`,
   calls of user functions with 0/1/2 arguments, attribute selection (`.bit_length()`, `.isascii()`, `.real`);
 * statements: `v = e`, `print! e`, `f(p: P) = e`, `f(p: P, q: Q) = e`, `f(p: P := d) = e`, `f = (p: P) -> e`,
-  `for! 0..<n, i => print! e` (the nesting contexts of the property: function and lambda bodies, default arguments, loop
+  `for! 0..<n, i => print! e`, `print!(e, end := d)`, `v = f(a, q := b)` (keyword arguments) (the nesting contexts of the property: function and lambda bodies, default arguments, loop
   bodies, nested calls and operands);
 * `sig`: operator signature table (hand-written; validated by the tie: every spec-typable generated program must be
   accepted by the real checker);
@@ -256,6 +256,8 @@ inductive Stmt where
   | fun1d (p : Ty) (dflt body : Expr)     -- f<j>(p: P := dflt) = body
   | lam (p : Ty) (body : Expr)            -- f<j> = (p: P) -> body
   | forp (hi : Nat) (body : Expr)         -- for! 0..<hi, i => print! body
+  | printEnd (e d : Expr)                 -- print!(e, end := d)              (keyword argument of a builtin procedure)
+  | defvK (f : Nat) (a b : Expr)          -- v<n> = f<f>(a, q := b)           (keyword argument of a user function)
   deriving DecidableEq, Repr, Inhabited
 
 /-- the expression slots of a statement with the variables each one sees in addition to the globals -/
@@ -267,6 +269,8 @@ def Stmt.slots : Stmt → List (List Ty × Expr)
   | .fun1d p d b => [([], d), ([p], b)]
   | .lam p b => [([p], b)]
   | .forp _ b => [([.nat], b)]
+  | .printEnd e d => [([], e), ([], d)]
+  | .defvK _ a b => [([], a), ([], b)]
 
 /-- typing of one statement: the environments after it, `none` when it is ill-typed -/
 def step (Φ : List FunSig) (Γ : List Ty) : Stmt → Option (List FunSig × List Ty)
@@ -291,6 +295,15 @@ def step (Φ : List FunSig) (Γ : List Ty) : Stmt → Option (List FunSig × Lis
   | .forp _ b => match typeOf Φ (Γ ++ [.nat]) b with
     | some _ => some (Φ, Γ)
     | none => none
+  | .printEnd e d => match typeOf Φ Γ e, typeOf Φ Γ d with
+    | some _, some td => if td = .str then some (Φ, Γ) else none
+    | _, _ => none
+  | .defvK f a b => match typeOf Φ Γ a, typeOf Φ Γ b with
+    | some ta, some tb =>
+      match Φ[f]? with
+      | some (.two p q r) => if ta.sub p ∧ tb.sub q then some (Φ, Γ ++ [r]) else none
+      | _ => none
+    | _, _ => none
 
 def check (Φ : List FunSig) (Γ : List Ty) : List Stmt → Bool
   | [] => true
@@ -315,6 +328,8 @@ def injectS (k : Inj) (Φ : List FunSig) (Γ : List Ty) (slot : Nat) (π : Path)
   | .fun1d p d b => if slot = 0 then .fun1d p (injectE k Φ Γ π d) b else .fun1d p d (injectE k Φ (Γ ++ [p]) π b)
   | .lam p b => .lam p (injectE k Φ (Γ ++ [p]) π b)
   | .forp h b => .forp h (injectE k Φ (Γ ++ [.nat]) π b)
+  | .printEnd e d => if slot = 0 then .printEnd (injectE k Φ Γ π e) d else .printEnd e (injectE k Φ Γ π d)
+  | .defvK f a b => if slot = 0 then .defvK f (injectE k Φ Γ π a) b else .defvK f a (injectE k Φ Γ π b)
 
 def positionsS (k : Inj) (Φ : List FunSig) (Γ : List Ty) : Stmt → List (Nat × Path)
   | .defv e => (positions k Φ Γ e).map (fun π => (0, π))
@@ -324,6 +339,8 @@ def positionsS (k : Inj) (Φ : List FunSig) (Γ : List Ty) : Stmt → List (Nat 
   | .fun1d p d b => (positions k Φ Γ d).map (fun π => (0, π)) ++ (positions k Φ (Γ ++ [p]) b).map (fun π => (1, π))
   | .lam p b => (positions k Φ (Γ ++ [p]) b).map (fun π => (0, π))
   | .forp _ b => (positions k Φ (Γ ++ [.nat]) b).map (fun π => (0, π))
+  | .printEnd e d => (positions k Φ Γ e).map (fun π => (0, π)) ++ (positions k Φ Γ d).map (fun π => (1, π))
+  | .defvK _ a b => (positions k Φ Γ a).map (fun π => (0, π)) ++ (positions k Φ Γ b).map (fun π => (1, π))
 
 /-- inject at statement `i` (the environments are those computed from the unchanged prefix) -/
 def injectFrom (k : Inj) (Φ : List FunSig) (Γ : List Ty) : Nat → Nat → Path → List Stmt → List Stmt
@@ -358,12 +375,17 @@ def Stmt.slotExpr : Stmt → Nat → Option Expr
   | .fun1d _ _ b, 1 => some b
   | .lam _ b, 0 => some b
   | .forp _ b, 0 => some b
+  | .printEnd e _, 0 => some e
+  | .printEnd _ d, 1 => some d
+  | .defvK _ a _, 0 => some a
+  | .defvK _ _ b, 1 => some b
   | _, _ => none
 
 /-- the global definitions, in order (index = variable index) -/
 def defsOf : List Stmt → List Expr
   | [] => []
   | .defv e :: rest => e :: defsOf rest
+  | .defvK f a b :: rest => .call2 f a b :: defsOf rest
   | _ :: rest => defsOf rest
 
 /-- an if-expression, or a global variable defined by one: the checker gives these an enum (value-set) type -/
